@@ -163,6 +163,8 @@ class Compound:
 @dataclass
 class Amount:
     value: int = field(default=0, metadata={"type": "Element"})
+    # a descendant of the union element that carries an ATTRIBUTE (the union node replays recorded events)
+    note: Optional[Leaf] = field(default=None, metadata={"type": "Element"})
 
 
 @dataclass
